@@ -47,10 +47,12 @@ def run(ctx):
             D = dl[0]
             sets = [(bi, s) for bi in pc.normal_blocks() for s in pc.blocks[bi]['s'] if s['k'] == 'assign' and s['p'] == [D] and s['r']['k'] == 'use' and s['r']['a'][0].get('i') == 1]
             by_lock = by_queue = 0
+            lock_sets = []
             for bi, s in sets:
                 calls, fields, binops = lib.guard_influences(pc, bi)
-                if any(re.search(r'RwLock.*::is_locked$', c) for c in calls):
+                if any(re.search(r'RwLock.*::is_locked$', c) for c in lib.deep_calls(F, calls)):
                     by_lock += 1
+                    lock_sets.append(bi)
                 if '.IndexedChangeSet.used_trees' in fields and '.CommitQueue.commits' in fields:
                     by_queue += 1
             ctx.ob('1b deferred-when-reader-locked', 'K3-guard', pc.path, 'defer is set on a path that depends on RwLock::is_locked of the registered reader of the tree', by_lock >= 1, 'assignments %d by-lock %d' % (len(sets), by_lock))
@@ -74,8 +76,12 @@ def run(ctx):
                 ctx.ob('4a counters-decremented-only-when-planned', 'K3-guard', pc.path, 'to_dereference is decremented only on the not-deferred path (a deferred commit keeps its pending count)',
                        len(td) == 2 and not any(x in r_nz for x in td), 'sites %s' % td)
         # the deferral check is made for every DereferenceChildren of the commit: in a loop over node_changes
-        lk = [bi for bi, t in pc.calls() if call_matches(t, ['re:RwLock.*::is_locked$'])]
-        ctx.ob('1g lock-test-in-loop', 'K2-loop-order', pc.path, 'the is_locked test sits in the loop over the node changes of the commit', len(lk) == 1 and lk[0] in pc.reaches(lk[0]), str(lk))
+        lk = lock_sets if len(dl) == 1 else []
+        loops = lib.for_loops_over(pc, '.IndexedChangeSet.node_changes')
+        def in_loop(x):
+            return any(x in pc.reachable_from([lp['some']], removed={lp['sw']}) and x not in pc.reachable_from([lp['none']], removed={lp['sw']}) for lp in loops)
+        ctx.ob('1g lock-test-in-loop', 'K2-loop-order', pc.path, 'the is_locked-dependent deferral decision sits inside the loop over the node changes of the commit (every DereferenceChildren is examined)',
+               len(lk) >= 1 and any(in_loop(x) for x in lk), 'decisions %s loops %s' % (lk, [lp['head'] for lp in loops]))
     cc = ctx.body('db::DbInner::commit_changes')
     if cc:
         ct = cc.call_sites('column::HashColumn::claim_tree_values')
@@ -88,7 +94,7 @@ def run(ctx):
                           sources=ct)
         for s2 in um:
             calls, fields, binops = lib.guard_influences(cc, s2)
-            ctx.ob('1h2 marking-decided-by-reader-lock', 'K3-guard', cc.path, 'a tree is marked as used depending on RwLock::is_locked of its registered reader', any(re.search(r'RwLock.*::is_locked$', c) for c in calls), '')
+            ctx.ob('1h2 marking-decided-by-reader-lock', 'K3-guard', cc.path, 'a tree is marked as used depending on RwLock::is_locked of its registered reader', any(re.search(r'RwLock.*::is_locked$', c) for c in lib.deep_calls(F, calls)), '')
         inc = [bi for bi, t in cc.calls() if bi in cc.normal_blocks() and call_matches(t, ['re:HashMap.*::insert$']) and '.Trees.to_dereference' in lib.receiver_fields(cc, t, 0)]
         ctx.ob('4b one-increment-per-DereferenceTree', 'anchor', cc.path, 'commit_changes increments to_dereference in one place', len(inc) == 1, str(inc))
         for s in inc:
